@@ -136,6 +136,122 @@ func vfSccrqCase(f []string) string {
 	return fmt.Sprintf("S[%s]/%d,%d,%d,%d |", strings.Join(sent, ","), t.Channel.Ns(), t.Channel.Nr(), t.Channel.Cwnd(), t.Channel.Ssthresh())
 }
 
+// full <lns|lac> <op>...: a real Component with one registered tunnel (local id 7) holding one session
+// (local id 5) and a real ControlChannel (ZLB delay 1 h, RTO 2 h, so the wall clock does not matter).
+//   op = <type>:<tid>:<sid>:<ns>:<a|nr>    type in sccrq sccrp scccn stop hello icrq icrp iccn cdn unk zlb
+// Every message is built on the wire and pushed through Dispatch, then the channel is ticked 90 min
+// ahead: an owed acknowledgement shows up as a ZLB.  Printed per op:
+//   K<tunnel registered before>:N<Nr after>:A<1 = the message was acknowledged (a packet carrying the
+//   current Nr left during Dispatch, or the ZLB fired), * for ZLBs / foreign tunnels / SCCRQ>
+func vfFullCase(f []string) string {
+	n := func(s string) int { v, _ := strconv.Atoi(s); return v }
+	c := New(logger.Get("l2tp"))
+	peer := net.IPv4(10, 0, 0, 2).To4()
+	local := net.IPv4(10, 0, 0, 1).To4()
+	type spkt struct {
+		zlb bool
+		nr  uint16
+	}
+	var sent []spkt
+	ch := l2tppkt.NewControlChannel(l2tppkt.Config{PeerRWS: 16, ZLBDelay: time.Hour, RTOInitial: 2 * time.Hour, RTOMax: 4 * time.Hour},
+		func(body []byte, sessionID, ns, nr uint16) error {
+			sent = append(sent, spkt{len(body) == 0, nr})
+			return nil
+		}, func() {})
+	trole, srole := l2tppkt.RoleResponder, l2tppkt.SessionRoleLNS
+	if f[0] == "lac" {
+		trole, srole = l2tppkt.RoleInitiator, l2tppkt.SessionRoleLAC
+	}
+	t := &Tunnel{LocalIP: local, PeerIP: peer, LocalID: 7, PeerID: 9, Channel: ch, Role: trole, FSM: l2tppkt.NewTunnelFSM(trole)}
+	if err := c.registerTunnel(t); err != nil {
+		return "register-failed"
+	}
+	t.addSession(&Session{SessionID: makeSessionID(peer, 7, 5), Tunnel: t, LocalID: 5, PeerID: 50, Role: srole,
+		FSM: l2tppkt.NewSessionFSM(srole), Attributes: map[string]string{}})
+	mt := func(ty uint16) []byte {
+		return l2tppkt.AppendAVP(nil, true, false, l2tppkt.VendorIETF, l2tppkt.AVPMessageType, []byte{byte(ty >> 8), byte(ty)})
+	}
+	var out []string
+	for _, op := range f[1:] {
+		a := strings.Split(op, ":")
+		if len(a) != 5 {
+			out = append(out, "badop")
+			continue
+		}
+		var body []byte
+		switch a[0] {
+		case "sccrq":
+			body = l2tppkt.BuildSCCRQ(l2tppkt.SCCRQParams{HostName: "lac", LocalTunnelID: 99, ReceiveWindowSize: 4, FramingCaps: 3})
+		case "sccrp":
+			body = l2tppkt.BuildSCCRP(l2tppkt.SCCRPParams{LocalTunnelID: 9, ReceiveWindowSize: 4, HostName: "lns", FramingCaps: 3})
+		case "scccn":
+			body = l2tppkt.BuildSCCCN(nil)
+		case "stop":
+			body = l2tppkt.BuildStopCCN(9, 1, 0, "")
+		case "hello":
+			body = l2tppkt.BuildHello()
+		case "icrq":
+			body = l2tppkt.BuildICRQ(l2tppkt.ICRQParams{LocalSessionID: 77, CallSerialNumber: 1})
+		case "icrp":
+			body = l2tppkt.BuildICRP(l2tppkt.ICRPParams{LocalSessionID: 50})
+		case "iccn":
+			body = l2tppkt.BuildICCN(l2tppkt.ICCNParams{TxConnectSpeed: 1000, Framing: 1})
+		case "cdn":
+			body = l2tppkt.BuildCDN(50, 1, 0, "")
+		case "unk":
+			body = mt(99)
+		case "zlb":
+			body = nil
+		default:
+			out = append(out, "badop")
+			continue
+		}
+		known := c.LookupTunnel(peer, 7) != nil
+		nr := uint16(n(a[4]))
+		if a[4] == "a" {
+			nr = ch.Ns()
+		}
+		h := l2tppkt.NewControl(uint16(n(a[1])), uint16(n(a[2])), uint16(n(a[3])), nr)
+		wire := append(h.AppendTo(nil, len(body)), body...)
+		pkt := &dataplane.ParsedPacket{
+			Protocol: models.ProtocolL2TP,
+			IPv4:     &layers.IPv4{SrcIP: peer, DstIP: local},
+			UDP:      &layers.UDP{SrcPort: 1701, DstPort: 1701},
+		}
+		pkt.UDP.Payload = wire
+		before := len(sent)
+		_ = c.Dispatch(pkt)
+		mid := len(sent)
+		ch.Tick(time.Now().Add(90 * time.Minute))
+		nrAfter := ch.Nr()
+		acked := false
+		for _, p := range sent[before:mid] {
+			if p.nr == nrAfter {
+				acked = true
+			}
+		}
+		for _, p := range sent[mid:] {
+			if p.zlb && p.nr == nrAfter {
+				acked = true
+			}
+		}
+		A := "0"
+		if acked {
+			A = "1"
+		}
+		if !known || a[1] != "7" || a[0] == "zlb" || a[0] == "sccrq" {
+			A = "*"
+		}
+		k := "0"
+		if known {
+			k = "1"
+		}
+		out = append(out, fmt.Sprintf("K%s:N%d:A%s", k, nrAfter, A))
+	}
+	out = append(out, "|")
+	return strings.Join(out, " ")
+}
+
 func vfDispGuard(line string) string {
 	done := make(chan string, 1)
 	go func() {
@@ -147,6 +263,8 @@ func vfDispGuard(line string) string {
 		f := strings.Fields(line)
 		if len(f) >= 2 && f[0] == "disp" {
 			done <- vfDispCase(f[1:])
+		} else if len(f) >= 3 && f[0] == "full" {
+			done <- vfFullCase(f[1:])
 		} else if len(f) == 3 && f[0] == "sccrq" {
 			done <- vfSccrqCase(f[1:])
 		} else {
